@@ -504,6 +504,9 @@ def _pow2(k):
     return 1 << k
 
 
+_MULUF = z3.Function("MUL", z3.IntSort(), z3.IntSort(), z3.IntSort())
+
+
 class SInt(object):
     __slots__ = ("t",)
 
@@ -557,6 +560,14 @@ class SInt(object):
                 return o * n
             return NotImplemented
         a, b = self.t, lift(o)
+        c = ctx()
+        if (not c.bv) and getattr(c, "nl_uf", False) and isinstance(o, SInt) \
+                and _const_of(a) is None and _const_of(b) is None:
+            # opaque product (byte-level harnesses): sound over-approximation, keeps
+            # the query in LIA+UF; equal operands still give equal products
+            if a.get_id() > b.get_id():
+                a, b = b, a
+            return SInt(_MULUF(a, b))
         self._bvop("mul", a, b)
         return _mk(a * b)
 
